@@ -34,6 +34,9 @@ type c06Case struct {
 	// first event of Seq arrives, "apart" = the second token is sent in (task hold answered) after the first one's
 	// winner was answered; Seq[0] is delivered for the first situation, Seq[1] for the second token when apart
 	Two string `json:"two,omitempty"`
+	// Merge: the branches of the alternatives do not end apart but meet at a merging gateway ("or" = inclusive,
+	// "xor" = exclusive) in front of a common task tm: the winner's token alone must pass it
+	Merge string `json:"merge,omitempty"`
 }
 
 func c06Graph(c *c06Case) *gen.Graph {
@@ -50,6 +53,18 @@ func c06Graph(c *c06Case) *gen.Graph {
 	} else {
 		g.Connect(t0, eg, nil)
 	}
+	var mg *gen.Node
+	if c.Merge != "" {
+		if c.Merge == "or" {
+			mg = g.Add(gen.Or, "mg", "")
+		} else {
+			mg = g.Add(gen.Xor, "mg", "")
+		}
+		tm := g.Add(gen.Task, "tm", "")
+		em := g.Add(gen.End, "em", "")
+		g.Connect(mg, tm, nil)
+		g.Connect(tm, em, nil)
+	}
 	for i := 0; i < c.Alts; i++ {
 		ce := g.Add(gen.Catch, fmt.Sprintf("c%d", i), "")
 		if c.Msg {
@@ -62,6 +77,8 @@ func c06Graph(c *c06Case) *gen.Graph {
 		g.Connect(ce, t, nil)
 		if c.Loop && i == 0 {
 			g.Connect(t, xm, nil)
+		} else if mg != nil {
+			g.Connect(t, mg, nil)
 		} else {
 			e := g.Add(gen.End, fmt.Sprintf("e%d", i), "")
 			g.Connect(t, e, nil)
@@ -138,6 +155,22 @@ func c06Cases(tier string, seed uint64) []fw.Case {
 					c := c06Case{Alts: alts, Seq: sq, Conc: true, Hook: hook, Msg: msg, Reps: reps}
 					c.Name = fmt.Sprintf("conc/a%d-%v-h%v", alts, sq, hook)
 					cs = append(cs, fw.MkCase("concurrent", &c))
+				}
+				// the branches meet again at a merging gateway
+				for hi, hook := range []float64{0, 0.5} {
+					if tier != "thorough" && (si+hi)%3 != 0 {
+						continue
+					}
+					reps := 10
+					if tier == "thorough" {
+						reps = 100
+					}
+					c := c06Case{Alts: alts, Seq: sq, Conc: true, Hook: hook, Msg: msg, Reps: reps, Merge: []string{"or", "or", "or", "xor"}[(si/3)%4]}
+					if tier == "thorough" {
+						c.Merge = []string{"or", "xor"}[(si/3+hi)%2]
+					}
+					c.Name = fmt.Sprintf("merge-%s/a%d-%v-h%v", c.Merge, alts, sq, hook)
+					cs = append(cs, fw.MkCase("merge", &c))
 				}
 				for _, hook := range []float64{0, 0.5} {
 					if tier != "thorough" && (si+int(hook*2))%3 != 0 {
@@ -390,7 +423,7 @@ func c06Run(c *c06Case, env *fw.Env, v *fw.V) {
 	branchReqs := func() map[string]int {
 		m := map[string]int{}
 		for _, r := range in.Reqs() {
-			if r.Act != "t0" {
+			if r.Act != "t0" && r.Act != "tm" {
 				m[r.Act]++
 			}
 		}
@@ -496,6 +529,20 @@ func c06Run(c *c06Case, env *fw.Env, v *fw.V) {
 	q, ok := quiet("after answering the winner's task")
 	if !ok {
 		return
+	}
+	if c.Merge != "" {
+		// the winner's token, alone, passes the merging gateway: the task behind it is requested once
+		if n := in.Count("Task", "tm"); n != 1 {
+			v.Violate("merge-not-passed", cls+"-merge="+c.Merge, "the winner's branch ended at the %s merge but the task behind it was requested %d times (events %v)", c.Merge, n, c.Seq)
+			fail()
+			return
+		}
+		for _, r := range in.Pending() {
+			in.Answer(r, bpmn.DoWithResults(nil))
+		}
+		if q, ok = quiet("after answering the task behind the merge"); !ok {
+			return
+		}
 	}
 	if n := in.Count("CeaseFlow", ""); n != 1 {
 		var blocked []string
